@@ -26,6 +26,9 @@ NCPU = min(16, os.cpu_count() or 4)
 GOENV = dict(os.environ, GOFLAGS="-mod=mod", GOPROXY="off", GOSUMDB="off", GOTOOLCHAIN="local")
 
 
+GEN_SPECS = {}
+
+
 class Infra(Exception):
     """The machinery itself failed: exit 2, never a violation."""
 
@@ -243,6 +246,8 @@ def tlc_gen(ctx, module, cfg_name, overrides=None, workers=NCPU, timeout=1800, n
         ctx.transitions += r["states"]
     r["lines"] = lines
     r["path"] = path
+    r["spec"] = {"module": module, "cfg": cfg_name, "overrides": overrides or {}, "extra_args": extra_args or []}
+    GEN_SPECS[path] = r["spec"]
     return r
 
 
@@ -425,8 +430,11 @@ def main(checks):
     code = 2
     try:
         build_harness(ctx)
-        rule = checks[a.prop](ctx)
-        code = finish(ctx, rule)
+        if a.replay:
+            code = replay_one(ctx, a.replay)
+        else:
+            rule = checks[a.prop](ctx)
+            code = finish(ctx, rule)
     except Infra as e:
         log("INFRASTRUCTURE FAILURE (exit 2, not a verdict):", str(e)[:6000])
         code = 2
@@ -434,3 +442,53 @@ def main(checks):
         if not a.keep:
             ctx.cleanup()
     sys.exit(code)
+
+
+VALIDATORS = {
+    "region": ("TraceRegion", "trace_region.cfg", "region", "region.ndjson"),
+    "access": ("TraceAccess", "trace_access.cfg", "access", "access.ndjson"),
+    "store": ("TraceStore", "trace_store.cfg", "store", "store.ndjson"),
+    "stmt": ("TraceStmt", "trace_stmt.cfg", "stmt", "stmt.ndjson"),
+    "lexer": ("TraceLexer", "trace_lexer.cfg", "lexer", "lexer.ndjson"),
+    "syntax": ("TraceSyntax", "trace_syntax.cfg", "syntax", "syntax.ndjson"),
+    "typing": ("TraceTyping", "trace_typing.cfg", "typing", "typing.ndjson"),
+    "errs": ("TraceErr", "trace_err.cfg", "errs", "errs.ndjson"),
+    "total": ("TraceTotal", "trace_total.cfg", "total", "total.ndjson"),
+    "conc": ("TraceConc", "trace_conc.cfg", "conc", "conc.ndjson"),
+}
+
+
+def replay_one(ctx, path):
+    """Re-run the single case of a replay file written by an earlier run."""
+    f = json.load(open(path))
+    r = f.get("replay")
+    if not r:
+        log("replay file carries no replay recipe (race reports are direct detector observations): ", f.get("detail", "")[:400])
+        return 2
+    ctx.seed = r.get("seed", ctx.seed)
+    ctx.tier = r.get("tier", ctx.tier)
+    gen_path = None
+    if r.get("gen"):
+        g = r["gen"]
+        gen_path = tlc_gen(ctx, g["module"], g["cfg"], g["overrides"], extra_args=g.get("extra_args") or None, name="regen")["path"]
+    args = [r["mode"], r["family"], "--prop", ctx.prop, "--only", r["only"]] + r.get("extra", [])
+    if gen_path:
+        args += ["--in", gen_path]
+    if r.get("n"):
+        args += ["--n", str(r["n"])]
+    kvh = build_harness(ctx, race=True) if r.get("race") else None
+    if r["mode"] == "record":
+        res = run_harness(ctx, args, ctx.sub("replay"), shards=NCPU, only_shard=r.get("shard", 0), kvh=kvh)
+    else:
+        res = run_harness(ctx, args, ctx.sub("replay"), shards=1, kvh=kvh)
+    hit = [x for x in res["findings"] if x["kind"] == f["kind"]]
+    for tname in r.get("traces", []):
+        mod, cfg, key, fn = VALIDATORS[tname]
+        rej = tlc_validate(ctx, mod, cfg, res["traces"].get(key, []), fn)
+        hit += [x for x in rej if not x["reason"].startswith("drift")]
+    if hit:
+        print("VIOLATION property=%s replay=%s" % (ctx.prop, path))
+        log("reproduced:", f.get("kind"), "|", f.get("query") or f.get("case"))
+        return 1
+    log("did not reproduce on the current tree:", f.get("kind"), "|", f.get("query") or f.get("case"))
+    return 0
